@@ -1,13 +1,199 @@
 // E2 scheduler state behind the RwLock shim.  Inactive (all no-ops) unless a scheduled run is active.
-use std::sync::atomic::{AtomicUsize, Ordering};
+use std::collections::HashMap;
+use std::future::Future;
+use std::pin::Pin;
+use std::sync::atomic::{AtomicBool, AtomicUsize, Ordering};
+use std::sync::{Condvar, Mutex};
+use std::task::{Context, Poll};
 
 static LOCK_IDS: AtomicUsize = AtomicUsize::new(0);
+pub static ACTIVE: AtomicBool = AtomicBool::new(false);
 
 pub fn new_lock_id() -> usize {
 	LOCK_IDS.fetch_add(1, Ordering::SeqCst)
 }
 
-pub async fn before_acquire(_id: usize, _write: bool) {}
-pub fn blocked(_id: usize, _write: bool) {}
-pub fn acquired(_id: usize, _write: bool) {}
-pub fn released(_id: usize, _write: bool) {}
+#[derive(Clone, Debug, PartialEq)]
+pub enum Status {
+	Run,                    // being polled / waiting for an invisible step (file, hook, socket)
+	AtAcquire(usize, bool), // yielded right before acquiring lock (id, write)
+	RespHeld(usize),        // its request reached the CA, the response (choice point) is held
+	WaitingWrite(usize),    // a writer that has announced itself (async-lock's WRITER_BIT): new readers wait
+	Done,
+}
+
+#[derive(Default)]
+pub struct LockState {
+	pub readers: usize,
+	pub writer: bool,
+	pub writer_waiting: Option<usize>,
+}
+
+pub struct Sched {
+	pub current: usize,
+	pub status: Vec<Status>,
+	pub woken: Vec<bool>,
+	pub locks: HashMap<usize, LockState>,
+	pub lock_names: HashMap<usize, String>,
+	pub held: Vec<(String, usize)>, // responses held by the CA gate, not yet attributed
+	pub released: Vec<usize>,       // choice points whose response may be written
+	pub yield_pass: Vec<bool>,      // the task has been chosen: its pending before_acquire returns
+	pub blocked_unexpected: Vec<String>,
+	pub holders: HashMap<usize, Vec<(usize, bool)>>, // lock -> (task, write)
+}
+
+pub static SCHED: Mutex<Option<Sched>> = Mutex::new(None);
+pub static CV: Condvar = Condvar::new();
+
+pub fn with<T>(f: impl FnOnce(&mut Sched) -> T) -> Option<T> {
+	let mut g = SCHED.lock().unwrap_or_else(|e| e.into_inner());
+	g.as_mut().map(f)
+}
+
+pub fn start(ntasks: usize) {
+	let mut g = SCHED.lock().unwrap_or_else(|e| e.into_inner());
+	*g = Some(Sched {
+		current: 0,
+		status: vec![Status::Run; ntasks],
+		woken: vec![true; ntasks],
+		locks: HashMap::new(),
+		lock_names: HashMap::new(),
+		held: vec![],
+		released: vec![],
+		yield_pass: vec![false; ntasks],
+		blocked_unexpected: vec![],
+		holders: HashMap::new(),
+	});
+	ACTIVE.store(true, Ordering::SeqCst);
+}
+
+pub fn stop() {
+	ACTIVE.store(false, Ordering::SeqCst);
+	let mut g = SCHED.lock().unwrap_or_else(|e| e.into_inner());
+	*g = None;
+	CV.notify_all();
+}
+
+struct YieldOnce {
+	id: usize,
+	write: bool,
+	armed: bool,
+}
+
+impl Future for YieldOnce {
+	type Output = ();
+	fn poll(mut self: Pin<&mut Self>, _cx: &mut Context<'_>) -> Poll<()> {
+		if !ACTIVE.load(Ordering::SeqCst) {
+			return Poll::Ready(());
+		}
+		let (id, write) = (self.id, self.write);
+		let pass = with(|s| {
+			let t = s.current;
+			if s.yield_pass[t] {
+				s.yield_pass[t] = false;
+				s.status[t] = Status::Run;
+				true
+			} else {
+				s.status[t] = Status::AtAcquire(id, write);
+				false
+			}
+		})
+		.unwrap_or(true);
+		if pass {
+			Poll::Ready(())
+		} else {
+			self.armed = true;
+			Poll::Pending
+		}
+	}
+}
+
+pub async fn before_acquire(id: usize, write: bool) {
+	if !ACTIVE.load(Ordering::SeqCst) {
+		return;
+	}
+	YieldOnce {
+		id,
+		write,
+		armed: false,
+	}
+	.await
+}
+
+pub fn blocked(id: usize, write: bool) {
+	if !ACTIVE.load(Ordering::SeqCst) {
+		return;
+	}
+	with(|s| {
+		let t = s.current;
+		if write {
+			// async-lock is write-preferring: a writer that cannot get the lock at once sets the
+			// writer bit and waits for the readers to leave; from then on new readers wait too
+			let l = s.locks.entry(id).or_default();
+			if l.writer || (l.writer_waiting.is_some() && l.writer_waiting != Some(t)) {
+				s.blocked_unexpected.push(format!("task {t} started to wait for lock {id} behind another writer"));
+			}
+			l.writer_waiting = Some(t);
+			s.status[t] = Status::WaitingWrite(id);
+		} else {
+			// the scheduler only lets a reader go on when no writer holds or awaits the lock
+			s.blocked_unexpected.push(format!("task {t} blocked on lock {id} (read)"));
+		}
+	});
+}
+
+pub fn acquired(id: usize, write: bool) {
+	if !ACTIVE.load(Ordering::SeqCst) {
+		return;
+	}
+	with(|s| {
+		let t = s.current;
+		let l = s.locks.entry(id).or_default();
+		if write {
+			l.writer = true;
+			if l.writer_waiting == Some(t) {
+				l.writer_waiting = None;
+			}
+		} else {
+			l.readers += 1;
+		}
+		s.holders.entry(id).or_default().push((t, write));
+		s.status[t] = Status::Run;
+	});
+}
+
+pub fn released(id: usize, write: bool) {
+	if !ACTIVE.load(Ordering::SeqCst) {
+		return;
+	}
+	with(|s| {
+		let l = s.locks.entry(id).or_default();
+		if write {
+			l.writer = false;
+		} else {
+			l.readers = l.readers.saturating_sub(1);
+		}
+		if let Some(h) = s.holders.get_mut(&id) {
+			if let Some(p) = h.iter().position(|(_, w)| *w == write) {
+				h.remove(p);
+			}
+		}
+	});
+}
+
+/// Can a task that is about to call read()/write() go on?  Readers: no writer holds or awaits the
+/// lock.  Writers: the writers' mutex is free (it then either gets the lock or becomes the waiting writer).
+pub fn acquirable(s: &Sched, id: usize, _write: bool) -> bool {
+	match s.locks.get(&id) {
+		None => true,
+		Some(l) => !l.writer && l.writer_waiting.is_none(),
+	}
+}
+
+/// Can the announced writer take the lock now?
+pub fn writer_can_enter(s: &Sched, id: usize) -> bool {
+	match s.locks.get(&id) {
+		None => true,
+		Some(l) => !l.writer && l.readers == 0,
+	}
+}
